@@ -684,7 +684,25 @@ static int run_cmd(struct ctx *c, char **t, int nt) {
     const char *what = ARG(1); size_t len = (size_t)strtoull(ARG(2), NULL, 10); char *dir = tokstr(ARG(3), NULL);
     mkdirs(dir);
     const char *kind = what;
-    if (!strcmp(what, "filename")) {            /* a file name of exactly len bytes ending in .conf, read directly and as a drop-in */
+    if (!strcmp(what, "mainname")) {            /* a MAIN file whose name (with its suffix) is exactly len bytes, read through the layered entry points */
+      size_t nl = len > 5 ? len - 5 : 1; char *name = malloc(nl + 1); memset(name, 'm', nl); name[nl] = 0;
+      char *etc; if (asprintf(&etc, "%s/etc", dir) < 0) etc = NULL;
+      char *pth; if (asprintf(&pth, "%s/%s.conf", etc, name) < 0) pth = NULL; mkparent(pth);
+      int w = wfile(pth, "k=1\n", 4);
+      for (int variant = 0; variant < 3; variant++) {
+        econf_file *kf = NULL, **kfs = NULL; size_t n = 0; char *v = NULL; econf_err ge;
+        if (variant == 0) { e = econf_readDirs(&kf, "/nonexistent-verif", etc, name, "conf", "=", "#"); }
+        else if (variant == 1) { char *opt; if (asprintf(&opt, "PARSING_DIRS=%s", etc) < 0) opt = NULL; e = econf_newKeyFile_with_options(&kf, opt); free(opt);
+          if (!e) e = econf_readConfig(&kf, NULL, NULL, name, ".conf", "=", "#"); if (e) { econf_freeFile(kf); kf = NULL; } }
+        else { e = econf_readDirsHistory(&kfs, &n, "/nonexistent-verif", etc, name, "conf", "=", "#"); if (!e && n >= 1) { kf = kfs[0]; for (size_t i = 1; i < n; i++) econf_freeFile(kfs[i]); } free(kfs); }
+        ge = e ? e : econf_getStringValue(kf, NULL, "k", &v);
+        fprintf(o, "{\"op\":\"long\",\"kind\":\"%s\",\"len\":%zu,\"api\":\"%s\",\"rc\":\"%s\",\"out_len\":%zu,\"head_ok\":%s,\"tail_ok\":%s,\"os_ok\":%s}\n", kind, len,
+                variant == 0 ? "readDirs(main file)" : variant == 1 ? "readConfig(main file)" : "readDirsHistory(main file)", ename(ge),
+                len, (v && !strcmp(v, "1")) ? "true" : "false", (v && !strcmp(v, "1")) ? "true" : "false", w == 0 ? "true" : "false");
+        free(v); econf_freeFile(kf);
+      }
+      free(etc); free(pth); free(name);
+    } else if (!strcmp(what, "filename")) {            /* a file name of exactly len bytes ending in .conf, read directly and as a drop-in */
       char *name = malloc(len + 1); memset(name, 'n', len); name[len] = 0; if (len > 5) memcpy(name + len - 5, ".conf", 5);
       char *pth; if (asprintf(&pth, "%s/p.conf.d/%s", dir, name) < 0) pth = NULL; mkparent(pth);
       int w = wfile(pth, "k=1\n", 4);
